@@ -258,3 +258,45 @@ def ref_gyration(points):
         out["acyl_invariant"] = math.sqrt(max(0.0, trS * trS - 4 * float(np.linalg.det(S))))
         out["list"] = [rg, out["acylindricity"], out["fractal"]]
     return out
+
+
+def s2_admissible(positions, H, ppp, rm, eps=1e-6):
+    """Cheap predicate used to define the S2 alphabet: every particle has at least one pair distance below r_m,
+    and no pair distance lies within eps of r_m (the implementation's `distance < r_m` decision)."""
+    positions = np.asarray(positions, float)
+    N = len(positions)
+    for i in range(N):
+        rv = minimg(positions - positions[i], H, ppp)
+        dist = np.sqrt((rv * rv).sum(axis=1))
+        dist = np.delete(dist, i)
+        if np.min(np.abs(dist - rm)) < eps:
+            return False
+        if not (dist < rm).any():
+            return False
+        if dist.min() < 0.05:
+            return False
+    return True
+
+
+def ref_s2_gr(positions, H, types, sigmas, ppp, rdelta, ndelta):
+    """The smeared per-particle g_i(r_k) alone (same transcription as in ref_s2), shape [N, ndelta]."""
+    positions = np.asarray(positions, float)
+    N, d = positions.shape
+    sigmas = np.asarray(sigmas, float)
+    rho = N / float(np.prod(np.diag(np.asarray(H, float))))
+    out = np.zeros((N, ndelta))
+    r = [k * rdelta + rdelta / 2 for k in range(ndelta)]
+    rm = max(r)
+    for i in range(N):
+        for j in range(N):
+            if j == i:
+                continue
+            rv = minimg((positions[j] - positions[i])[None, :], H, ppp)[0]
+            rij = math.sqrt(float((rv * rv).sum()))
+            if rij < rm:
+                s = float(sigmas[int(types[i]) - 1, int(types[j]) - 1])
+                for k in range(ndelta):
+                    out[i, k] += math.exp(-((r[k] - rij) ** 2) / (2 * s * s)) / math.sqrt(2 * math.pi * s * s)
+        for k in range(ndelta):
+            out[i, k] /= 4 * math.pi * rho * r[k] ** 2 if d == 3 else 2 * math.pi * rho * r[k]
+    return out
